@@ -35,7 +35,7 @@ from ..qm.corfunctions import CorrelationFunctionMatrix
 from .aggregate_states import ElectronicState
 from .aggregate_states import VibronicState
 
-#from ..core.managers import energy_units
+from ..core.managers import energy_units
 #from .molecules import Molecule
 from ..core.managers import Manager
 from ..core.managers import eigenbasis_of
@@ -1328,6 +1328,23 @@ class AggregateBase(UnitsManaged, Saveable, OpenSystem):
     def build(self, mult=1, sbi_for_higher_ex=False,
               vibgen_approx=None, Nvib=None, vibenergy_cutoff=None,
               fem_full=False, el_blocks=False):
+        """Builds aggregate properties (see `_build` for the parameters)
+
+        The aggregate is built in internal units; the units which are
+        current for the caller are restored by the context manager,
+        also when the build fails.
+
+        """
+        with energy_units("int"):
+            self._build(mult=mult, sbi_for_higher_ex=sbi_for_higher_ex,
+                        vibgen_approx=vibgen_approx, Nvib=Nvib,
+                        vibenergy_cutoff=vibenergy_cutoff,
+                        fem_full=fem_full, el_blocks=el_blocks)
+
+
+    def _build(self, mult=1, sbi_for_higher_ex=False,
+              vibgen_approx=None, Nvib=None, vibenergy_cutoff=None,
+              fem_full=False, el_blocks=False):
         """Builds aggregate properties
 
         Calculates Hamiltonian and transition dipole moment matrices and
@@ -1351,7 +1368,6 @@ class AggregateBase(UnitsManaged, Saveable, OpenSystem):
 
         """
         manager = Manager()
-        manager.set_current_units("energy", "int")
 
         # maximum multiplicity of excitons handled by this aggregate
         self.mult = mult
@@ -1725,7 +1741,6 @@ class AggregateBase(UnitsManaged, Saveable, OpenSystem):
 
         self._built = True
 
-        manager.unset_current_units("energy")
 
 
     def rebuild(self, mult=1, sbi_for_higher_ex=False,
